@@ -24,6 +24,7 @@ const (
 	KWr
 	KBlock
 	KReturn
+	KCallParam // translator-internal: invocation of a func-typed parameter, resolved when the function is inlined
 )
 
 // Ref is a syntactic path: a root variable (or a rendered root string) followed by field names.
@@ -42,10 +43,11 @@ func (r Ref) Text() string {
 
 type Stmt struct {
 	K     Kind
-	A, B  *Stmt  // Seq, Choice; Loop uses A
-	Ref   Ref    // Acq, Rel, Rd, Wr
-	Label string // mutex label (Acq/Rel), field label (Rd/Wr), channel text (Block)
-	Ex    bool   // Acq: exclusive
+	A, B  *Stmt       // Seq, Choice; Loop uses A
+	Ref   Ref         // Acq, Rel, Rd, Wr
+	Label string      // mutex label (Acq/Rel), field label (Rd/Wr), channel text (Block)
+	Ex    bool        // Acq: exclusive
+	Param interface{} // KCallParam: the parameter (types.Object)
 	Pos   token.Position
 }
 
@@ -142,17 +144,31 @@ func (s *Stmt) walk(f func(*Stmt)) {
 }
 
 // clone with a substitution of references
-func (s *Stmt) subst(f func(Ref) Ref) *Stmt {
+func (s *Stmt) subst(f func(Ref) Ref, g func(*Stmt) *Stmt) *Stmt {
 	c := *s
 	switch s.K {
 	case KSeq, KChoice:
-		c.A, c.B = s.A.subst(f), s.B.subst(f)
+		c.A, c.B = s.A.subst(f, g), s.B.subst(f, g)
 	case KLoop:
-		c.A = s.A.subst(f)
+		c.A = s.A.subst(f, g)
 	case KAcq, KRel, KRd, KWr:
 		c.Ref = f(s.Ref)
+	case KCallParam:
+		if g != nil {
+			return g(s)
+		}
 	}
 	return &c
+}
+
+func (s *Stmt) hasCallParam() bool {
+	found := false
+	s.walk(func(x *Stmt) {
+		if x.K == KCallParam {
+			found = true
+		}
+	})
+	return found
 }
 
 func coqString(s string) string { return `"` + strings.ReplaceAll(s, `"`, `""`) + `"` }
@@ -215,6 +231,8 @@ func (s *Stmt) Short() string {
 		return "Wr " + s.Ref.Text() + ":" + s.Label
 	case KBlock:
 		return "Block " + s.Label
+	case KCallParam:
+		return "CallParam " + s.Label
 	}
 	return "?"
 }
@@ -340,7 +358,11 @@ func (c *checker) run(ls lockset, s *Stmt) (bool, lockset) {
 	case KRd, KWr:
 		g, ok := c.guard[s.Label]
 		if !ok {
-			c.add("field-not-in-guard-table", "well_locked", s.Label, "", s.Pos)
+			kind := "field-not-in-guard-table"
+			if strings.Contains(s.Label, "after publication") {
+				kind = "write-after-publication"
+			}
+			c.add(kind, "well_locked", s.Ref.Text()+":"+s.Label, "", s.Pos)
 			return true, ls
 		}
 		i := ls.find(s.Ref.Text() + "|" + g)
